@@ -106,7 +106,7 @@ struct AddrSys {
 
     enum Kind {
         PUSH_COPY = 1, PUSH_MOVE, UPDATE_ABSENT, POP, EXTRACT, REMOVE, UPDATE, REPRIO_UPDATE, CLEAR, UPDATE_ALL, REPRIO_UPDATE_ALL,
-        RETABLE_UPDATE_ALL, BUILD_VEC, BUILD_ITER, BUILD_MOVE, SEED
+        RETABLE_UPDATE_ALL, BUILD_VEC, BUILD_ITER, BUILD_MOVE, SEED, RESERVE
     };
 
     // seed heaps of the deep family: build_heap(const vector&) of the keys 0..nk-1 (in this order) on the fresh heap,
@@ -157,6 +157,7 @@ struct AddrSys {
         case UPDATE: return vh::fmt("%supdate(%u unchanged)", C, a);
         case REPRIO_UPDATE: return vh::fmt("%supdate(%u after prio:=%u)", C, a / 4, a % 4);
         case CLEAR: return vh::fmt("%sclear()", C);
+        case RESERVE: return vh::fmt("%sreserve(%u)", C, a);
         case UPDATE_ALL: return vh::fmt("%supdate_all()", C);
         case REPRIO_UPDATE_ALL: return vh::fmt("%supdate_all(after prio[%u]:=%u)", C, a / 4, a % 4);
         case RETABLE_UPDATE_ALL: return vh::fmt("%supdate_all(after table preset P%u)", C, a);
@@ -202,6 +203,8 @@ struct AddrSys {
                 for (int v = 0; v < A_NP; ++v)
                     if (v != s.table[k]) r.push_back(enc(REPRIO_UPDATE, k * 4 + v));
         r.push_back(enc(CLEAR));
+        // reserve() must never lose anything: smaller sizes than the keys stored (no-ops) and one size beyond the key universe
+        for (unsigned n : {0u, 1u, 2u, (unsigned)nk + 1u}) r.push_back(enc(RESERVE, n));
         r.push_back(enc(UPDATE_ALL));
         for (int k = 0; k < nk; ++k)
             if (has(s, k))
@@ -394,6 +397,7 @@ struct AddrSys {
             h.clear();
             model_build(s, {}, 0);
             break;
+        case RESERVE: h.reserve((size_t)a); break;
         case UPDATE_ALL: h.update_all(); break;
         case REPRIO_UPDATE_ALL:
             s.table[a / 4] = (int)(a % 4);
